@@ -34,10 +34,20 @@ def run(rep, tier, seed, model_ok=True, effort=1):
                 "containing only the configured files and one tag on it; abstract traces replayed against the Coq state machine; non-trivial = distinct (history, step) that is a successful update")
     traces = []
     for h in range(nhist):
-        spec = rwgen.gen_project(r, impl, legacy=(r.random() < 0.2), max_files=3, allow_mixed=False)
+        spec = rwgen.gen_project(r, impl, legacy=(r.random() < 0.2), max_files=3, allow_mixed=False, tree=True)
         if not spec["old"]:
             continue
         scripted = None
+        same_day = False
+        if h == 1:
+            # corpus history: an update whose result is equal to the current version under PEP 440 but differs as text (2024.10.0 -> 2024.10)
+            # must be refused; the following dated update must then succeed from the unchanged state
+            spec = rwgen.gen_project(common.rng(2, "c08-corpus"), impl, legacy=False, max_files=2, allow_mixed=False)
+            spec["vp"], spec["flags"], spec["old"], spec["date"] = "YYYY.0M[.PATCH]", [], "2024.10.0", dt.date(2024, 10, 5)
+            fs = rwgen.FileSpec("VERSION.txt", ["{version}"])
+            fs.lines = [([rwgen.Seg("occ", 0)], "\n")]
+            spec["files"] = [fs]
+            scripted, same_day = ["update", "update"], True
         if h == 0:
             # corpus history: the config gets ahead of the newest tag across a 9 -> 10 digit boundary
             spec = rwgen.gen_project(common.rng(1, "c08-corpus"), impl, legacy=False, max_files=2, allow_mixed=False)
@@ -96,7 +106,7 @@ def run(rep, tier, seed, model_ok=True, effort=1):
                         cur = shown      # the config value of the branch that is checked out now
                     trace.append("OBranch")
                     continue
-                date = date + dt.timedelta(days=r.choice([0, 1, 31, 400]))
+                date = date + dt.timedelta(days=(0 if s == 0 else 40) if same_day else r.choice([0, 1, 31, 400]))
                 args = ["update", "--no-fetch", "--date", date.isoformat()] + spec["flags"]
                 if op == "fail":
                     args += r.choice([["--set-version", cur], ["--tag", "nonsense"], ["--pin-date"]])
